@@ -42,6 +42,8 @@ import (
 //   T = upper-case absolute        U1@D0.EXAMPLE.           a connection key of its own)
 //   j = absolute U-label domain    u1@пример0.example.     (convertible)
 //   y = absolute A-label domain    u1@xn--0-itbmn9a5a.example.
+//   L = non-ASCII local part, U-label domain  ю1@пример0.example (not convertible; same connection as i)
+//   z = non-ASCII local part, A-label domain  ю1@xn--0-itbmn9a5a.example (not convertible; same connection as x)
 func c09IDN(dom int) string { return fmt.Sprintf("пример%d.example", dom) }
 
 func c09Addr(mbox, dom int, form byte) string {
@@ -58,6 +60,11 @@ func c09Addr(mbox, dom int, form byte) string {
 		return fmt.Sprintf("U%d@%s", mbox, strings.ToUpper(a))
 	case 'l':
 		return fmt.Sprintf("ю%d@d%d.example", mbox, dom)
+	case 'L':
+		return fmt.Sprintf("ю%d@%s", mbox, c09IDN(dom))
+	case 'z':
+		a, _ := idna.ToASCII(c09IDN(dom))
+		return fmt.Sprintf("ю%d@%s", mbox, a)
 	case 'c':
 		return fmt.Sprintf("\u00e9%d@d%d.example", mbox, dom)
 	case 'd':
@@ -164,9 +171,9 @@ func c09ConnKey(dom int, form byte) int {
 	switch form {
 	case 'u':
 		cls = 1
-	case 'i', 'I':
+	case 'i', 'I', 'L':
 		cls = 2
-	case 'x':
+	case 'x', 'z':
 		cls = 3
 	case 'X':
 		cls = 4
@@ -197,7 +204,12 @@ type c09Collector struct {
 	st []string
 }
 
-// op: C09 remote <utf8> <tx>;<tx>   tx = <id>.<dom>.<form>.<act>[.<mbox>],...:<df>[:<buf>[:<oracle>]]
+// op: C09 remote <utf8> <tx>;<tx>
+// utf8 = <srv>[n]: srv 0 = the next hop does not offer SMTPUTF8, 1 = it does, 2 = it does and enforces
+// RFC 6531 section 3.4 (a non-ASCII address in RCPT TO is answered 553 unless MAIL FROM carried the SMTPUTF8
+// parameter); "n" = the MESSAGE does not carry the SMTPUTF8 flag (MsgMetadata.SMTPOpts.UTF8 false: received
+// without the extension, non-ASCII recipients come from alias rewriting), absent = it does.
+// tx = <id>.<dom>.<form>.<act>[.<mbox>],...:<df>[:<buf>[:<oracle>]]
 // (buf: see c09Tx; oracle = the connection keys hit by the failing Open / reader as OBSERVED in the run,
 // "+"-separated, "-" = none: written by the harness into the op it reports, ignored on input)
 // (mbox defaults to id). The same id may occur several times in one transaction: the very same
@@ -339,8 +351,15 @@ func (h *c09Hop) mark() {
 
 func c09Remote(t *testing.T, out *vh.Out, op string) {
 	toks := strings.Fields(op)
-	utf8 := toks[2] == "1"
+	utf8 := toks[2][0] != '0'
+	strict := toks[2][0] == '2'
+	msgUTF8 := !strings.HasSuffix(toks[2], "n")
 	txs, raw := c09Parse(toks[3])
+	if strict {
+		raw = true // the go-smtp server never looks at the parameter
+	}
+	capName := fmt.Sprintf("srv%c.msg-flag-%v", toks[2][0], msgUTF8)
+	out.Stat("remote.smtputf8." + capName)
 
 	tgt := testTarget(t, c09Zones(), nil, nil)
 	tgt.connReuseLimit = 10 // the configuration default; testTarget leaves 0 (= never reuse)
@@ -351,6 +370,9 @@ func c09Remote(t *testing.T, out *vh.Out, op string) {
 		smtpPort = vsmtp.FreePort()
 		if raw {
 			hop.r, err = vc09.Start("127.0.0.1:"+smtpPort, utf8, false)
+			if err == nil {
+				hop.r.Strict = strict
+			}
 		} else {
 			hop.v, err = vsmtp.Start("127.0.0.1:"+smtpPort, utf8, false)
 		}
@@ -412,7 +434,7 @@ func c09Remote(t *testing.T, out *vh.Out, op string) {
 		}
 		hop.mark()
 		ctx := context.Background()
-		meta := &module.MsgMetadata{ID: "verif", SMTPOpts: smtp.MailOptions{UTF8: true}}
+		meta := &module.MsgMetadata{ID: "verif", SMTPOpts: smtp.MailOptions{UTF8: msgUTF8}}
 		d, err := tgt.Start(ctx, meta, "sender@example.com")
 		if err != nil {
 			t.Fatal(err)
@@ -422,6 +444,7 @@ func c09Remote(t *testing.T, out *vh.Out, op string) {
 		var adds []string
 		accepted := map[int]int{}
 		faultSeen := false
+		accOnConn := map[int]int{} // accepted so far, per connection key
 		for _, r := range tx.rcpts {
 			a := c09Addr(r.mbox, r.dom, r.form)
 			if prev, dup := byAddr[a]; dup && prev != r.id {
@@ -433,9 +456,19 @@ func c09Remote(t *testing.T, out *vh.Out, op string) {
 				hop.r.NextRcpt(r.act)
 			}
 			err := d.AddRcpt(ctx, a, smtp.RcptOptions{})
+			if !address.IsASCII(a) {
+				// the internationalisation dimension: what kind of non-ASCII recipient comes after how many
+				// accepted recipients of ITS connection, under which capability / message-flag combination
+				kind := "idn-domain-only"
+				if _, cerr := address.ToASCII(a); cerr != nil {
+					kind = "non-ascii-local-part"
+				}
+				out.Stat(fmt.Sprintf("remote.smtputf8.%s.%s-after-%d-accepted-on-its-connection.%s", capName, kind, min(accOnConn[c09ConnKey(r.dom, r.form)], 2), map[bool]string{true: "accepted", false: "refused"}[err == nil]))
+			}
 			if err == nil {
 				adds = append(adds, fmt.Sprintf("%d=o", r.id))
 				accepted[r.id]++
+				accOnConn[c09ConnKey(r.dom, r.form)]++
 			} else {
 				adds = append(adds, fmt.Sprintf("%d=f", r.id))
 			}
@@ -676,7 +709,7 @@ var c09Families = []string{"auU", "aU", "iIxX", "cdC", "ix", "xi", "at", "tTa", 
 // c09GenTxRaw generates a transaction for the positional next hop: mailboxes spelled in several
 // ways as different recipients, and/or a connection fault exactly under a RCPT that follows k
 // accepted ones of the same connection and is followed by further recipients of that connection.
-func c09GenTxRaw(r *vh.Rng, nextID *int, respell, fault bool) string {
+func c09GenTxRaw(r *vh.Rng, nextID *int, respell, fault, mix bool) string {
 	var rs []string
 	acts := func() byte {
 		switch {
@@ -738,13 +771,63 @@ func c09GenTxRaw(r *vh.Rng, nextID *int, respell, fault bool) string {
 			}
 		}
 	}
+	if mix {
+		// ONE connection that sees k accepted ASCII (or IDN-domain-only, convertible) recipients first, THEN a
+		// recipient whose LOCAL PART is not ASCII (no ASCII form), then 0..2 more of either kind — in that
+		// order (70 %) or shuffled, interleaved with whatever else the transaction has. What the connection
+		// does with it depends on the message's SMTPUTF8 flag and the capability of the next hop (op token 2).
+		dom := r.Intn(3)
+		plain, local := "aaU", "llcdC"
+		switch {
+		case r.Chance(30):
+			plain, local = "iI", "L" // the connection of the U-label spelling
+		case r.Chance(12):
+			plain, local = "x", "z" // the connection of the A-label spelling
+		}
+		k := 1 + r.Intn(3)
+		after := r.Intn(3)
+		var seq []string
+		for i := 0; i < k+1+after; i++ {
+			*nextID++
+			form := plain[r.Intn(len(plain))]
+			if i == k || (i > k && r.Chance(50)) {
+				form = local[r.Intn(len(local))]
+			}
+			act := byte('1')
+			switch {
+			case i == k && r.Chance(15):
+				act = '0' // the next hop refuses exactly this one (whatever was done to get it through)
+			case i == k && r.Chance(8):
+				act = 't'
+			case r.Chance(10):
+				act = acts()
+			}
+			seq = append(seq, fmt.Sprintf("%d.%d.%c.%c", *nextID, dom, form, act))
+		}
+		if r.Chance(30) {
+			p := c09Perm(r, len(seq))
+			sh := make([]string, len(seq))
+			for i, j := range p {
+				sh[i] = seq[j]
+			}
+			seq = sh
+		}
+		pos := 0
+		for _, tok := range seq {
+			pos += r.Intn(len(rs) - pos + 1)
+			rs = append(rs, "")
+			copy(rs[pos+1:], rs[pos:])
+			rs[pos] = tok
+			pos++
+		}
+	}
 	extra := r.Intn(3)
 	if len(rs) == 0 {
 		extra = 1 + r.Intn(3)
 	}
 	for i := 0; i < extra; i++ {
 		*nextID++
-		insert(fmt.Sprintf("%d.%d.%c.%c", *nextID, r.Intn(3), "aaailuxcCtTjy"[r.Intn(13)], acts()))
+		insert(fmt.Sprintf("%d.%d.%c.%c", *nextID, r.Intn(3), "aaailuxcCtTjyLz"[r.Intn(15)], acts()))
 	}
 	// the message body: a buffer that can be opened k times only (k = 0: not at all), a reader that
 	// fails mid-way for the one connection that gets it, a message quarantined after the recipients were
@@ -832,10 +915,19 @@ func TestVerifC09Remote(t *testing.T) {
 			if classic {
 				txs = append(txs, c09GenTx(r, &id))
 			} else {
-				txs = append(txs, c09GenTxRaw(r, &id, r.Chance(55), r.Chance(45)))
+				txs = append(txs, c09GenTxRaw(r, &id, r.Chance(55), r.Chance(45), r.Chance(35)))
 			}
 		}
-		utf8 := r.Intn(2)
-		c09Remote(t, out, fmt.Sprintf("C09 remote %d %s", utf8, strings.Join(txs, ";")))
+		// the next hop: no SMTPUTF8 / SMTPUTF8 / SMTPUTF8 enforced (positional next hop only); the message
+		// with or without the SMTPUTF8 flag
+		utf8 := "001122"[r.Intn(6)]
+		if classic && utf8 == '2' {
+			utf8 = '1'
+		}
+		flag := ""
+		if r.Chance(50) {
+			flag = "n"
+		}
+		c09Remote(t, out, fmt.Sprintf("C09 remote %c%s %s", utf8, flag, strings.Join(txs, ";")))
 	}
 }
